@@ -635,4 +635,34 @@ def reg7(ctx: Ctx) -> None:
     ctx.R.ok("REG-7", f"no equality-keyed memoisation on {n} functions of _code_dispatch")
 
 
-C12 = [reg1_2, reg3, reg4_6, reg5, reg7, reg8]
+
+def reg9_pop_sentinel(ctx: Ctx) -> None:
+    """REG-9 IdentityDict.pop tells "no default given" from every value a caller can pass: the default parameter's own default is a
+    private sentinel object, not None / False / 0 / "" -- with a passable constant, `pop(missing, None)` raises KeyError instead of
+    returning None, and the mapping no longer behaves like the dict it stands in for"""
+    mod = ctx.P.mod("_code_dispatch")
+    if not mod.has("IdentityDict.pop"):
+        ctx.R.ok("REG-9", "IdentityDict has no pop of its own", "MutableMapping.pop (sentinel-based) is used")
+        return
+    fn = mod.fn("IdentityDict.pop")
+    a = fn.args
+    pos = a.posonlyargs + a.args
+    dmap = {x.arg: d for x, d in zip(pos[len(pos) - len(a.defaults):], a.defaults)}
+    dmap.update({x.arg: d for x, d in zip(a.kwonlyargs, a.kw_defaults) if d is not None})
+    cands = [n_ for n_ in dmap if n_ not in ("self", "key")]
+    if len(cands) != 1:
+        ctx.R.undecided("REG-9", f"IdentityDict.pop has {len(cands)} defaulted parameters besides the key (1 expected)")
+        return
+    d = dmap[cands[0]]
+    raises = [r for r in ast.walk(fn) if isinstance(r, ast.Raise)]
+    if isinstance(d, ast.Constant) and not (d.value is Ellipsis):
+        if raises:
+            ctx.R.fail("REG-9", mod, fn, f"IdentityDict.pop uses the passable value `{d.value!r}` as its \"no default given\" marker: pop(<missing key>, {d.value!r}) raises KeyError instead of returning {d.value!r}",
+                       construct=f"pop default marker {d.value!r}")
+        else:
+            ctx.R.undecided("REG-9", "IdentityDict.pop never raises")
+    else:
+        ctx.R.ok("REG-9", f"IdentityDict.pop: `{cands[0]}` defaults to the private marker `{norm(d)[:40]}`")
+
+
+C12 = [reg9_pop_sentinel, reg1_2, reg3, reg4_6, reg5, reg7, reg8]
